@@ -40,7 +40,9 @@ Proof.
   - destruct (rec1 idx b (zero_of s idx)) as [x|] eqn:E; [|discriminate H]. rewrite (Hrec _ _ _ _ E). exact H.
   - destruct (i_pointer (field_info s f)).
     + match type of H with context[rec1 idx b ?v] => destruct (rec1 idx b v) as [x|] eqn:E; [|discriminate H]; rewrite (Hrec _ _ _ _ E) end. exact H.
-    + match type of H with context[rec1 idx b ?v] => destruct (rec1 idx b v) as [x|] eqn:E; [|discriminate H]; rewrite (Hrec _ _ _ _ E) end. exact H.
+    + destruct (i_oneof (field_info s f)).
+      * match type of H with context[rec1 idx b ?v] => destruct (rec1 idx b v) as [x|] eqn:E; [|discriminate H]; rewrite (Hrec _ _ _ _ E) end. exact H.
+      * match type of H with context[rec1 idx b ?v] => destruct (rec1 idx b v) as [x|] eqn:E; [|discriminate H]; rewrite (Hrec _ _ _ _ E) end. exact H.
 Qed.
 Lemma apply_token_mono m t x y : apply_token s rec1 m t x = Some y -> apply_token s rec2 m t x = Some y.
 Proof.
